@@ -280,6 +280,41 @@ func (c *Checker) helperImplies(call *ssa.Call, isErr bool, want bool, atoms []A
 		}
 		k, isC := res.(*ssa.Const)
 		if !isErr {
+			if phi, isPhi := res.(*ssa.Phi); isPhi && (!isC) {
+				// `return a && b` / `return a || b`: a φ of constants and computed values. The helper returns
+				// `want` through an incoming edge whose value can be `want`; each such edge must be covered.
+				allCovered := true
+				for i, ev := range phi.Edges {
+					if ek, ok := ev.(*ssa.Const); ok && ek.Value != nil && ek.Value.Kind() == constant.Bool {
+						if constant.BoolVal(ek.Value) != want {
+							continue
+						}
+					}
+					n++
+					covered := false
+					if _, isConst := ev.(*ssa.Const); !isConst {
+						if p, pol, ok := hc.pred(ev); ok {
+							for _, a := range atoms {
+								if a.matches(p, pol == want) {
+									covered = true
+								}
+							}
+						}
+					}
+					if !covered {
+						if ok, _ := hc.MustPass(phi.Block().Preds[i], atoms); ok {
+							covered = true
+						}
+					}
+					if !covered {
+						allCovered = false
+					}
+				}
+				if !allCovered {
+					return false
+				}
+				continue
+			}
 			if !isC || k.Value == nil || k.Value.Kind() != constant.Bool {
 				// computed boolean result: helper == want means this value == want
 				n++
